@@ -419,6 +419,60 @@ func runBubble(p Plan) (v hk.Verdict) {
 		v.Label("step-budget-exhausted")
 	}
 
+	// (o) the finalizer set only changes through the finalizer operations: every commit leaves the set of its
+	// predecessor unchanged except for the one finalizer an AddFinalizer / RemoveFinalizer call names, and at the end
+	// the store holds exactly what the last commit wrote (nothing reaches the store outside a committed write)
+	{
+		prev := map[model.Key]*model.Res{}
+
+		for i, c := range commits {
+			if old := prev[c.New.Key]; old != nil && c.Kind != model.Created {
+				added, removed := 0, 0
+
+				for _, f := range c.New.Fins {
+					if !slices.Contains(old.Fins, f) {
+						added++
+					}
+				}
+
+				for _, f := range old.Fins {
+					if !slices.Contains(c.New.Fins, f) {
+						removed++
+					}
+				}
+
+				dup := len(slices.Compact(slices.Sorted(slices.Values(c.New.Fins)))) != len(c.New.Fins)
+
+				if added+removed > 1 || dup || (c.Kind == model.Destroyed && added+removed > 0) {
+					v.Failf("(o) commit #%d changes the finalizers of %s from %v to %v: more than one finalizer operation's worth (the set was altered outside a finalizer call)", i, c.New.Key, old.Fins, c.New.Fins)
+				}
+			}
+
+			if c.Kind == model.Destroyed {
+				delete(prev, c.New.Key)
+			} else {
+				prev[c.New.Key] = c.New
+			}
+		}
+
+		for i := range p.Res {
+			k := model.Key{NS: "n1", Typ: "TA", ID: resIDs[i]}
+
+			g, err := inner.Get(root, resource.NewMetadata(k.NS, k.Typ, k.ID, resource.VersionUndefined))
+
+			switch {
+			case err != nil && final[k] != nil:
+				v.Failf("(o) %s is gone from the store, the last commit wrote %s", k, final[k])
+			case err == nil && final[k] == nil:
+				v.Failf("(o) the store holds %s, the last commit destroyed it", hres.Describe(g))
+			case err == nil:
+				if d := model.Diff(g, final[k]); d != "" {
+					v.Failf("(o) the store's value of %s differs from what the last commit wrote (changed outside a committed write): %s", k, d)
+				}
+			}
+		}
+	}
+
 	// (i) no Destroy commit removes a value with finalizers
 	for i, c := range commits {
 		if c.Kind == model.Destroyed && len(c.New.Fins) > 0 {
